@@ -13,6 +13,8 @@ R12h-opt   `serialize_none` / `serialize_some` write the tags that `<Option<T> a
            `<Option<T> as Getable>` read exactly that, R12f.)
 R12h-seq   what `SerializeSeq::end` allocates (the `*Def` aggregate built by it or by the `api::ser` helpers it calls) is
            what the direct sibling for sequences, `<Collect<T> as Pushable>::vm_push` (used by `Vec<T>`), allocates.
+R12h-tup   `SerializeTuple::end` / `SerializeTupleStruct::end` allocate what the `Pushable` impl of tuples allocates (a record
+           with the fields `_0`, `_1`, ...).
 R12i       the deserializer cannot recurse without progress: in the graph whose nodes are the `deserialize_*` methods of
            `&mut Deserializer` and whose edges are calls of one such method on the *same* value (receiver not built from a
            child accessor), evaluated separately for every pair (representation of the value, kind of its resolved type)
@@ -161,6 +163,24 @@ def r12h(fb, rep):
         else:
             rep.violation(R, "seq-alloc-differs", "the bridge's SerializeSeq::end allocates %s but sequences pushed directly (<Collect<T> as Pushable>, used by Vec<T>) allocate %s: "
                           "a Vec arrives as a data value, not an Array" % (sorted(got), sorted(want)), end.where())
+    # tuples (and tuple structs with more than one field, which derive(VmType) types as tuples)
+    tups = sorted((bid for bid, b in fb.bodies.items() if b.kind == "fn" and bid.startswith("<(") and ", " in bid.split(" as ")[0] and bid.endswith(" as gluon_vm::api::Pushable<'vm>>::vm_push")), key=len)
+    tup = fb.bodies[tups[0]] if tups else None
+    ends = [b for bid, b in sorted(fb.bodies.items()) if b.kind == "fn" and "gluon_vm::api::ser::" in bid and (bid.endswith("SerializeTuple>::end") or bid.endswith("SerializeTupleStruct>::end"))]
+    if tup is None or len(ends) != 2:
+        rep.anchor_lost(R, "Pushable for tuples / SerializeTuple::end and SerializeTupleStruct::end of the bridge")
+    else:
+        want = _defs_built(fb, tup)
+        if not want:
+            rep.anchor_lost(R, "the allocation definition built by the Pushable impl of tuples")
+        for e in ends:
+            got = _defs_built(fb, e)
+            nm = e.id.split(" as ")[1].split(">::")[0].rsplit("::", 1)[-1]
+            if got == want:
+                rep.ok(R, "%s::end allocates %s like the Pushable impl of tuples" % (nm, sorted(got)))
+            elif want:
+                rep.violation(R, "tuple-alloc-differs|%s" % nm, "the bridge's %s::end allocates %s but tuples pushed directly allocate %s (a record with the fields _0, _1, ...): field access "
+                              "by name on the received tuple (any row-polymorphic accessor) fails with `Field _0 does not exist`" % (nm, sorted(got), sorted(want)), e.where())
 
 
 def _tag_consts(fb, b, seen=()):
@@ -191,7 +211,8 @@ def _defs_built(fb, b, depth=0, seen=None):
         if rv[0] == "agg" and rv[1][0] == "adt" and rv[1][1].startswith("gluon_vm::value::") and rv[1][1].endswith("Def"):
             out.add(rv[1][1].rsplit("::", 1)[-1])
     for c in b.calls():
-        if "gluon_vm::api::ser::" in c.res:
+        last = c.res.rsplit("::", 1)[-1]
+        if "gluon_vm::api::ser::" in c.res or (c.res.startswith("gluon_vm::thread::") and last.startswith("push_new_")):
             out |= _defs_built(fb, fb.body(c.res), depth + 1, seen)
     return out
 
